@@ -707,9 +707,18 @@ Qed.
 
 Section Placement.
 Variable sid : nat.                (* the call site we follow *)
-Variable data : list R.
-Hypothesis data_ne : data <> [].
-Let d0 : dsref := mkDs data Linear true.
+Variable d0 : dsref.               (* its arguments *)
+(* the call site's iterator as a process: its state and what it has handed out after k draws.
+   A draw either advances the process by one record without touching the oracle, or fails. *)
+Variable seq_at : nat -> list R.
+Variable iter_at : nat -> iter.
+Hypothesis new_at : forall orc, new_iter d0 orc = Ok (iter_at 0, orc).
+Hypothesis seq_0 : seq_at 0 = [].
+Hypothesis step_at : forall k orc,
+  match field_draw (iter_at k) orc with
+  | Ok (x, it, o) => it = iter_at (S k) /\ o = orc /\ seq_at (S k) = seq_at k ++ [x]
+  | Err _ => True
+  end.
 
 (* occurrences of the call site in a recipe *)
 Fixpoint occ_sites (l : list (nat * dsref)) : nat :=
@@ -881,10 +890,9 @@ Qed.
 
 (* ---- the call site's iterator advances one record per row, wherever the rows are written *)
 
-Definition Good (l : list R) : Prop := l = cyc_from data data (length l).
-Definition iter_at (k : nat) : iter := mkIter R d0 true (rest_after data data k).
+Definition Good (l : list R) : Prop := l = seq_at (length l).
 Definition eff (s : st) : iter :=
-  match lookup R sid (s_sites R C s) with Some it => it | None => mkIter R d0 true data end.
+  match lookup R sid (s_sites R C s) with Some it => it | None => iter_at 0 end.
 
 (* pend = records drawn for the row under construction, not yet written *)
 Definition InvP (s : st) (pend : list R) : Prop :=
@@ -892,22 +900,12 @@ Definition InvP (s : st) (pend : list R) : Prop :=
   eff s = iter_at (length (trace (s_out R C s) ++ pend)).
 Definition GoodOut (o : list row) : Prop := Good (trace o).
 
-Lemma draw_step k orc :
-  exists x, field_draw (iter_at k) orc = Ok (x, iter_at (S k), orc) /\
-            cyc_from data data (S k) = cyc_from data data k ++ [x].
-Proof.
-  pose proof (draw_seq_linear (k + 1) data data true orc data_ne) as H.
-  destruct (draw_seq_app _ _ _ _ _ _ _ H) as (l1 & l2 & it1 & o1 & H1 & H2 & Hl).
-  rewrite (draw_seq_linear k data data true orc data_ne) in H1. inversion H1; subst l1 it1 o1; clear H1.
-  cbn [Datasets.draw_seq] in H2. fold d0 in H2. fold (iter_at k) in H2.
-  destruct (field_draw (iter_at k) orc) as [[[x it'] o']|] eqn:Hd; cbn [bind] in H2; [|discriminate].
-  inversion H2; subst. exists x. replace (S k) with (k + 1)%nat by lia. split; [reflexivity|assumption].
-Qed.
-
 Lemma cached_draw (s : st) pend :
   InvP s pend ->
-  exists x s', site_draw R C false sid d0 s = ROk R C R x s' /\
-               InvP s' (pend ++ [x]) /\ s_out R C s' = s_out R C s.
+  match site_draw R C false sid d0 s with
+  | ROk _ _ _ x s' => InvP s' (pend ++ [x])
+  | RErr _ _ _ _ o => o = s_out R C s
+  end.
 Proof.
   intros (Hg1 & Hg2 & He). unfold Datasets.site_draw.
   set (k := length (trace (s_out R C s) ++ pend)) in *.
@@ -916,9 +914,10 @@ Proof.
                 | None => new_iter d0 (s_orc R C s)
                 end = Ok (iter_at k, s_orc R C s)).
   { unfold eff in He. destruct (lookup R sid (s_sites R C s)); [rewrite He; reflexivity|].
-    rewrite <- He. reflexivity. }
-  rewrite Hit. destruct (draw_step k (s_orc R C s)) as (x & Hd & Hc). rewrite Hd.
-  exists x. eexists. split; [reflexivity|]. cbn [s_out]. split; [|reflexivity].
+    rewrite new_at, He. reflexivity. }
+  rewrite Hit. pose proof (step_at k (s_orc R C s)) as Hd.
+  destruct (field_draw (iter_at k) (s_orc R C s)) as [[[x it'] o']|e]; [|reflexivity].
+  destruct Hd as (-> & -> & Hc).
   unfold InvP, eff; cbn [s_out s_sites]. rewrite lookup_store_same.
   rewrite app_assoc, app_length. cbn [length]. fold k.
   splits; [assumption| |f_equal; lia].
@@ -939,6 +938,9 @@ Proof.
   intros (extra & Ho & Ht) (H1 & _). unfold GoodOut. rewrite Ho, trace_app, Ht, app_nil_r. assumption.
 Qed.
 
+Lemma InvP_GoodOut (s : st) pend : InvP s pend -> GoodOut (s_out R C s).
+Proof. intros (H & _). exact H. Qed.
+
 Lemma draw_sites_inv rc : forall sites (s : st) pend,
   sites_ok rc sites -> InvP s pend ->
   match draw_sites R C rc sites s with
@@ -951,8 +953,10 @@ Proof.
   - cbn [sites_ok] in Hok. destruct Hok as [Hk Hok].
     destruct (Nat.eq_dec k sid) as [->|Hne].
     + destruct (Hk eq_refl) as [-> ->].
-      destruct (cached_draw s pend Hs) as (x & s1 & Hd & Hs1 & Ho1). rewrite Hd.
-      specialize (IH s1 (pend ++ [x]) Hok Hs1).
+      pose proof (cached_draw s pend Hs) as Hd.
+      destruct (site_draw R C false sid d0 s) as [x s1|e o];
+        [|subst o; eapply InvP_GoodOut; eassumption].
+      specialize (IH s1 (pend ++ [x]) Hok Hd).
       destruct (draw_sites R C false sites s1) as [cs s2|e o]; [|exact IH].
       cbn [vals]. rewrite Nat.eqb_refl.
       rewrite <- app_assoc in IH. exact IH.
@@ -973,9 +977,6 @@ Proof.
   intros (H1 & H2 & H3). unfold InvP, eff, Datasets.emit in *. cbn [s_out s_sites].
   rewrite trace_app. cbn [trace]. rewrite !app_nil_r. auto.
 Qed.
-
-Lemma InvP_GoodOut (s : st) pend : InvP s pend -> GoodOut (s_out R C s).
-Proof. intros (H & _). exact H. Qed.
 
 Lemma plain_true_occ :
   (forall t : tmpl, plain true t -> occ t = O) /\
@@ -1071,29 +1072,17 @@ Proof.
     apply IH. exact H1.
 Qed.
 
-Lemma Good_nth (l : list R) :
-  Good l -> forall j, (j < length l)%nat -> nth_error l j = nth_error data (j mod length data).
-Proof.
-  intros Hg j Hj. rewrite Hg.
-  pose proof (cyc_from_nth (length l) data 0 j data_ne ltac:(lia) Hj) as Hc.
-  cbn [skipn Nat.add] in Hc. exact Hc.
-Qed.
-
-(* C17, placement: follow one Dataset.iterate call site (repeat on, n > 0 records) that lies
-   outside every for_each scope, anywhere in a recipe: top level, friend, nested object, at any
-   depth, next to any other templates and call sites.  The records it hands to the rows, read off
-   the rows in the order they are written over all iterations, are record 0, 1, .., n-1, 0, 1, ..
-   — also when the run ends in an error (for the rows written before it). *)
-Theorem placement_mod_n iters ts orc rows e :
+(* the records the call site hands out, read off the written rows, are exactly the first
+   (so many) outputs of its iterator process *)
+Theorem placement_general iters ts orc rows e :
   (occ_list ts <= 1)%nat -> plain_list false ts ->
   run_recipe iters ts orc = (rows, e) ->
-  forall j, (j < length (trace rows))%nat ->
-    nth_error (trace rows) j = nth_error data (j mod length data).
+  trace rows = seq_at (length (trace rows)).
 Proof.
-  intros Hocc Hpl Hrun. apply Good_nth.
+  intros Hocc Hpl Hrun.
   unfold Datasets.run_recipe in Hrun.
   assert (H0 : InvP (mkSt R C [] orc []) []).
-  { unfold InvP, Good, eff, iter_at. cbn. auto. }
+  { unfold InvP, Good, eff. cbn. rewrite seq_0. auto. }
   pose proof (iterations_inv ts Hocc Hpl iters _ H0) as H.
   destruct (iterations R C col iters ts (mkSt R C [] orc [])) as [u s1|e1 o]; cbn [holds] in H;
     inversion Hrun; subst.
@@ -1102,5 +1091,278 @@ Proof.
 Qed.
 
 End Placement.
+
+(* ---- instance 1: Dataset.iterate with repeat on, n > 0 *)
+
+Lemma draw_step (data : list R) k orc :
+  data <> [] ->
+  exists x, field_draw (mkIter R (mkDs data Linear true) true (rest_after data data k)) orc
+            = Ok (x, mkIter R (mkDs data Linear true) true (rest_after data data (S k)), orc) /\
+            cyc_from data data (S k) = cyc_from data data k ++ [x].
+Proof.
+  intros data_ne.
+  pose proof (draw_seq_linear (k + 1) data data true orc data_ne) as H.
+  destruct (draw_seq_app _ _ _ _ _ _ _ H) as (l1 & l2 & it1 & o1 & H1 & H2 & Hl).
+  rewrite (draw_seq_linear k data data true orc data_ne) in H1. inversion H1; subst l1 it1 o1; clear H1.
+  cbn [Datasets.draw_seq] in H2.
+  destruct (field_draw (mkIter R (mkDs data Linear true) true (rest_after data data k)) orc)
+    as [[[x it'] o']|] eqn:Hd; cbn [bind] in H2; [|discriminate].
+  inversion H2; subst. exists x. replace (S k) with (k + 1)%nat by lia. split; [reflexivity|assumption].
+Qed.
+
+(* C17, placement: follow one Dataset.iterate call site (repeat on, n > 0 records) that lies
+   outside every for_each scope, anywhere in a recipe: top level, friend, nested object, at any
+   depth, next to any other templates and call sites.  The records it hands to the rows, read off
+   the rows in the order they are written over all iterations, are record 0, 1, .., n-1, 0, 1, ..
+   — also when the run ends in an error (for the rows written before it). *)
+Theorem placement_mod_n (sid : nat) (data : list R) iters ts orc rows e :
+  data <> [] ->
+  (occ_list sid ts <= 1)%nat -> plain_list sid (mkDs data Linear true) false ts ->
+  run_recipe iters ts orc = (rows, e) ->
+  forall j, (j < length (trace sid rows))%nat ->
+    nth_error (trace sid rows) j = nth_error data (j mod length data).
+Proof.
+  intros Hne Hocc Hpl Hrun j Hj.
+  assert (Hg : trace sid rows = cyc_from data data (length (trace sid rows))).
+  { eapply (placement_general sid (mkDs data Linear true) (fun k => cyc_from data data k)
+              (fun k => mkIter R (mkDs data Linear true) true (rest_after data data k)));
+      try eassumption.
+    - reflexivity.
+    - reflexivity.
+    - intros k o. destruct (draw_step data k o Hne) as (x & Hd & Hc). rewrite Hd. auto. }
+  rewrite Hg.
+  pose proof (cyc_from_nth (length (trace sid rows)) data 0 j Hne ltac:(lia) Hj) as Hc.
+  cbn [skipn Nat.add] in Hc. exact Hc.
+Qed.
+
+(* ---- instance 2: Dataset.iterate with repeat: False *)
+
+Lemma firstn_S_skipn (data : list R) k x r :
+  skipn k data = x :: r -> firstn (S k) data = firstn k data ++ [x].
+Proof.
+  revert k; induction data as [|h t IH]; intros [|k] H; cbn [skipn] in H; try discriminate.
+  - inversion H; subst. reflexivity.
+  - cbn [firstn app]. f_equal. apply IH. exact H.
+Qed.
+
+(* C17, placement, no silent reuse: a repeat: False call site outside for_each scopes, anywhere in
+   a recipe, hands out at most n records over the whole run (all rows, all iterations), and they
+   are the file's records in file order.  A run in which more than n rows consume it therefore
+   cannot succeed: the model's only way out is the DataGenError of no_silent_reuse. *)
+Theorem placement_norepeat (sid : nat) (data : list R) iters ts orc rows e :
+  (occ_list sid ts <= 1)%nat -> plain_list sid (mkDs data Linear false) false ts ->
+  run_recipe iters ts orc = (rows, e) ->
+  trace sid rows = firstn (length (trace sid rows)) data /\
+  (length (trace sid rows) <= length data)%nat.
+Proof.
+  intros Hocc Hpl Hrun.
+  assert (Hg : trace sid rows = firstn (length (trace sid rows)) data).
+  { eapply (placement_general sid (mkDs data Linear false) (fun k => firstn k data)
+              (fun k => mkIter R (mkDs data Linear false) false (skipn k data)));
+      try eassumption.
+    - reflexivity.
+    - reflexivity.
+    - intros k o. unfold Datasets.field_draw, Datasets.iter_next. cbn [i_rest i_repeat i_ds].
+      destruct (skipn k data) as [|x r] eqn:Hs; [exact I|].
+      destruct (skipn_cons_nth _ _ _ _ Hs) as (_ & H2 & _).
+      rewrite H2. splits; auto. eapply firstn_S_skipn; eassumption. }
+  split; [exact Hg|].
+  pose proof (f_equal (@length R) Hg) as Hl. rewrite firstn_length in Hl. lia.
+Qed.
+
+(* ------------------------------------------------------------------ for_each with children *)
+
+Section ForEachGeneral.
+Variable tid : nat.
+
+Fixpoint tid_free (t : tmpl) : Prop :=
+  match t with
+  | Tmpl k _ _ _ nested friends => k <> tid /\ tid_free_list nested /\ tid_free_list friends
+  end
+with tid_free_list (ts : tmpls) : Prop :=
+  match ts with
+  | TNil => True
+  | TCons t r => tid_free t /\ tid_free_list r
+  end.
+
+Definition mine (rows : list row) : list row := filter (fun r => Nat.eqb (r_tid r) tid) rows.
+Definition key (r : row) : option R * Z := (r_fe R C r, r_index R C r).
+Fixpoint keys (recs : list R) (i : Z) : list (option R * Z) :=
+  match recs with
+  | [] => []
+  | x :: r => (Some x, i) :: keys r (i + 1)
+  end.
+
+Lemma mine_app a b : mine (a ++ b) = mine a ++ mine b.
+Proof. apply filter_app. Qed.
+
+Lemma site_draw_out rc k d (s : st) :
+  match site_draw R C rc k d s with
+  | ROk _ _ _ _ s' => s_out R C s' = s_out R C s
+  | RErr _ _ _ _ o => o = s_out R C s
+  end.
+Proof.
+  unfold Datasets.site_draw. destruct rc.
+  - destruct (new_iter d (s_orc R C s)) as [[it o1]|e]; [|reflexivity].
+    destruct (field_draw it o1) as [[[x it'] o2]|e]; reflexivity.
+  - destruct (match lookup R k (s_sites R C s) with Some it => Ok (it, s_orc R C s) | None => new_iter d (s_orc R C s) end)
+      as [[it o1]|e]; [|reflexivity].
+    destruct (field_draw it o1) as [[[x it'] o2]|e]; reflexivity.
+Qed.
+
+Lemma draw_sites_out rc : forall sites (s : st),
+  match draw_sites R C rc sites s with
+  | ROk _ _ _ _ s' => s_out R C s' = s_out R C s
+  | RErr _ _ _ _ o => o = s_out R C s
+  end.
+Proof.
+  induction sites as [|[k d] sites IH]; intros s; cbn [Datasets.draw_sites]; [reflexivity|].
+  pose proof (site_draw_out rc k d s) as H1.
+  destruct (site_draw R C rc k d s) as [x s1|e o]; [|exact H1].
+  specialize (IH s1). destruct (draw_sites R C rc sites s1) as [cs s2|e o]; congruence.
+Qed.
+
+(* templates with other ids write no row of ours *)
+Definition quiet_P (out0 : list row) (s : st) : Prop :=
+  exists ex, s_out R C s = out0 ++ ex /\ mine ex = [].
+Definition quiet_Q (out0 : list row) (o : list row) : Prop :=
+  exists ex, o = out0 ++ ex /\ mine ex = [].
+
+Lemma quiet_refl (s : st) : quiet_P (s_out R C s) s.
+Proof. exists []. rewrite app_nil_r. auto. Qed.
+
+Lemma quiet_gen :
+  (forall t : tmpl, tid_free t -> forall rc out0 s, quiet_P out0 s ->
+      holds (quiet_P out0) (quiet_Q out0) (gen_rows t rc s)) /\
+  (forall ts : tmpls, tid_free_list ts -> forall rc out0 s, quiet_P out0 s ->
+      holds (quiet_P out0) (quiet_Q out0) (gen_list ts rc s)).
+Proof.
+  apply tmpl_mutind.
+  - intros k lp sites pass nested IHn friends IHf (Hk & Hn & Hf) rc out0 s Hs.
+    assert (Hrow : forall rc' fe i s, quiet_P out0 s ->
+               holds (quiet_P out0) (quiet_Q out0) (one_row k sites pass nested friends rc' fe i s)).
+    { intros rc' fe i s1 Hs1. unfold one_row.
+      pose proof (draw_sites_out rc' sites s1) as H1.
+      destruct (draw_sites R C rc' sites s1) as [cs s2|e o]; [|cbn [holds]; subst o; exact Hs1].
+      assert (Hs2 : quiet_P out0 s2) by (unfold quiet_P in *; rewrite H1; exact Hs1).
+      pose proof (IHn Hn rc' out0 s2 Hs2) as H2.
+      destruct (gen_list nested rc' s2) as [u s3|e o]; [|exact H2].
+      cbn [holds] in H2.
+      destruct (project fe pass) as [pv|e]; [|exact H2].
+      apply IHf; [assumption|].
+      destruct H2 as (ex & Ho & Hm). exists (ex ++ [mkRow k fe i cs pv]).
+      unfold Datasets.emit; cbn [s_out]. rewrite Ho, app_assoc. split; [reflexivity|].
+      rewrite mine_app, Hm. cbn [mine filter r_tid app].
+      destruct (Nat.eqb k tid) eqn:E; [apply Nat.eqb_eq in E; contradiction|reflexivity]. }
+    rewrite gen_rows_eq. destruct lp as [|m|d].
+    + apply count_loop_inv; [|assumption]. intros; apply Hrow; assumption.
+    + apply count_loop_inv; [|assumption]. intros; apply Hrow; assumption.
+    + destruct (new_iter d (s_orc R C s)) as [[it o1]|e]; [|exact Hs].
+      apply each_loop_inv; [intros; apply Hrow; assumption|]. exact Hs.
+  - intros _ rc out0 s Hs. rewrite gen_list_nil. exact Hs.
+  - intros t IHt r IHr [H1 H2] rc out0 s Hs. rewrite gen_list_cons.
+    pose proof (IHt H1 rc out0 s Hs) as H3.
+    destruct (gen_rows t rc s) as [u s1|e o]; [|exact H3].
+    apply IHr; assumption.
+Qed.
+
+Definition prefix {A} (a b : list A) : Prop := exists c, b = a ++ c.
+
+(* one row of our template: exactly one row of ours is written, carrying (fe, i); on failure at
+   most that one *)
+Lemma one_row_mine sites pass nested friends rc fe i (s : st) :
+  tid_free_list nested -> tid_free_list friends ->
+  match one_row tid sites pass nested friends rc fe i s with
+  | ROk _ _ _ _ s' => exists ex, s_out R C s' = s_out R C s ++ ex /\ map key (mine ex) = [(fe, i)]
+  | RErr _ _ _ _ o => exists ex, o = s_out R C s ++ ex /\ prefix (map key (mine ex)) [(fe, i)]
+  end.
+Proof.
+  intros Hn Hf. unfold one_row.
+  pose proof (draw_sites_out rc sites s) as H1.
+  destruct (draw_sites R C rc sites s) as [cs s1|e o].
+  2:{ exists []. rewrite app_nil_r. split; [assumption|]. exists [(fe, i)]. reflexivity. }
+  pose proof (proj2 quiet_gen nested Hn rc _ s1 (quiet_refl s1)) as H2.
+  destruct (gen_list nested rc s1) as [u s2|e o]; cbn [holds] in H2.
+  2:{ destruct H2 as (ex & Ho & Hm). exists ex. rewrite Ho, H1. split; [reflexivity|].
+      rewrite Hm. exists [(fe, i)]. reflexivity. }
+  destruct H2 as (ex & Ho & Hm).
+  destruct (project fe pass) as [pv|e].
+  2:{ exists ex. rewrite Ho, H1. split; [reflexivity|]. rewrite Hm. exists [(fe, i)]. reflexivity. }
+  set (s3 := emit R C (mkRow tid fe i cs pv) s2).
+  pose proof (proj2 quiet_gen friends Hf rc _ s3 (quiet_refl s3)) as H3.
+  assert (Hs3 : s_out R C s3 = s_out R C s ++ (ex ++ [mkRow tid fe i cs pv])).
+  { unfold s3, Datasets.emit; cbn [s_out]. rewrite Ho, H1, app_assoc. reflexivity. }
+  assert (Hk : map key (mine (ex ++ [mkRow tid fe i cs pv])) = [(fe, i)]).
+  { rewrite mine_app, Hm. cbn [mine filter r_tid app]. rewrite Nat.eqb_refl. reflexivity. }
+  destruct (gen_list friends rc s3) as [u' s4|e o]; cbn [holds] in H3;
+    destruct H3 as (ex2 & Ho2 & Hm2); exists ((ex ++ [mkRow tid fe i cs pv]) ++ ex2);
+    rewrite Ho2, Hs3, <- app_assoc; (split; [reflexivity|]);
+    rewrite (mine_app (ex ++ [mkRow tid fe i cs pv]) ex2), Hm2, app_nil_r, Hk.
+  - reflexivity.
+  - exists []. reflexivity.
+Qed.
+
+Lemma each_loop_mine sites pass nested friends rc :
+  tid_free_list nested -> tid_free_list friends ->
+  forall recs i (s : st),
+  match each_loop R C (fun x => one_row tid sites pass nested friends rc (Some x)) recs i s with
+  | ROk _ _ _ _ s' => exists ex, s_out R C s' = s_out R C s ++ ex /\ map key (mine ex) = keys recs i
+  | RErr _ _ _ _ o => exists ex, o = s_out R C s ++ ex /\ prefix (map key (mine ex)) (keys recs i)
+  end.
+Proof.
+  intros Hn Hf. induction recs as [|x r IH]; intros i s; cbn [Datasets.each_loop keys].
+  - exists []. rewrite app_nil_r. auto.
+  - pose proof (one_row_mine sites pass nested friends rc (Some x) i s Hn Hf) as H1.
+    destruct (one_row tid sites pass nested friends rc (Some x) i s) as [u s1|e o].
+    + destruct H1 as (ex1 & Ho1 & Hk1). specialize (IH (i + 1) s1).
+      destruct (each_loop R C (fun x0 => one_row tid sites pass nested friends rc (Some x0)) r (i + 1) s1)
+        as [u' s2|e o]; destruct IH as (ex2 & Ho2 & Hk2); exists (ex1 ++ ex2);
+        rewrite Ho2, Ho1, <- app_assoc; (split; [reflexivity|]); rewrite mine_app, map_app, Hk1.
+      * rewrite Hk2. reflexivity.
+      * destruct Hk2 as (c & Hc). exists c. cbn [app]. rewrite Hc. reflexivity.
+    + destruct H1 as (ex1 & Ho1 & (c & Hc)). exists ex1. split; [assumption|].
+      exists (c ++ keys r (i + 1)). rewrite app_assoc, <- Hc. reflexivity.
+Qed.
+
+(* C17, for_each in general: a for_each template with any fields, nested objects and friends
+   (none of which writes rows under the same template id), in any context: if it completes, the
+   rows it wrote carry exactly the records of one pass, in order, with child_index 0..n-1; if the
+   run fails inside, the rows written so far carry a prefix of that. *)
+Theorem for_each_general (d : dsref) sites pass nested friends rc (s : st) :
+  tid_free_list nested -> tid_free_list friends ->
+  match gen_rows (Tmpl tid (LForEach d) sites pass nested friends) rc s with
+  | ROk _ _ _ _ s' =>
+    exists it orc1 ex, new_iter d (s_orc R C s) = Ok (it, orc1) /\
+      s_out R C s' = s_out R C s ++ ex /\ map key (mine ex) = keys (i_rest R it) 0
+  | RErr _ _ _ _ o =>
+    (exists e, new_iter d (s_orc R C s) = Err e /\ o = s_out R C s) \/
+    exists it orc1 ex, new_iter d (s_orc R C s) = Ok (it, orc1) /\
+      o = s_out R C s ++ ex /\ prefix (map key (mine ex)) (keys (i_rest R it) 0)
+  end.
+Proof.
+  intros Hn Hf. rewrite gen_rows_eq.
+  destruct (new_iter d (s_orc R C s)) as [[it o1]|e] eqn:Hnew.
+  - pose proof (each_loop_mine sites pass nested friends true Hn Hf (i_rest R it) 0
+                  (mkSt R C (s_sites R C s) o1 (s_out R C s))) as H.
+    cbn [s_out] in H.
+    destruct (each_loop R C (fun x => one_row tid sites pass nested friends true (Some x)) (i_rest R it) 0
+                (mkSt R C (s_sites R C s) o1 (s_out R C s))) as [u s1|e o].
+    + destruct H as (ex & Ho & Hk). exists it, o1, ex. auto.
+    + right. destruct H as (ex & Ho & Hk). exists it, o1, ex. auto.
+  - left. exists e. auto.
+Qed.
+
+Lemma keys_length recs i : length (keys recs i) = length recs.
+Proof. revert i; induction recs; intros; cbn [keys length]; auto. Qed.
+
+Lemma keys_nth recs : forall i k x,
+  nth_error recs k = Some x -> nth_error (keys recs i) k = Some (Some x, i + Z.of_nat k).
+Proof.
+  induction recs as [|y r IH]; intros i [|k] x H; cbn [nth_error keys] in *; try discriminate.
+  - inversion H; subst. replace (i + Z.of_nat 0) with i by lia. reflexivity.
+  - rewrite (IH _ _ _ H). replace (i + 1 + Z.of_nat k) with (i + Z.of_nat (S k)) by lia. reflexivity.
+Qed.
+
+End ForEachGeneral.
 
 End Proofs.
